@@ -20,10 +20,18 @@
      after the history [ops] on a fresh dispatcher (mpt_dispatch_init); [full_log ops]
      the whole log.  ALL theorems quantify over every history: no bound on its length,
      on the table size or on the ids (2^64 wrap-around is modelled in djb2 only; the
-     id choice of reserve cannot wrap after fix 21b24df). *)
+     id choice of reserve cannot wrap after fix 21b24df).
+   * [OArr] makes the table the default constructed C++ command::array (shared empty
+     content with command traits, as the member io::stream::_wait); [OAux a] are the
+     calls beside the dispatcher ([aux]): mpt_hash_djb2 with both length conventions,
+     the default handler of a reserved slot, reply_data::set, reply_context::defer /
+     pointer_traits, the built-in fallback handler called directly.  [aux_run] is the
+     transcription on checked storage, [aux_spec] the statement on flat data.
+   * The model is the code AFTER docs/C11_reserve_typed.diff (mpt_command_reserve on a
+     table with command traits) and docs/C11_dispatch_copy.diff (no copy of a dispatcher). *)
 From MptV Require Import Base.Mem C17.MessageModel C17.MessageSpec
   C11.DispatchModel C11.DispatchSpec C11.DispatchLemmas C11.DispatchCompact C11.DispatchTable
-  C11.DispatchEvent C11.DispatchRefine C11.DispatchLog C11.DispatchHistory.
+  C11.DispatchEvent C11.DispatchAux C11.DispatchRefine C11.DispatchLog C11.DispatchHistory.
 From Coq Require Import Permutation.
 
 (* ---- refinement: slot table -> finite map ------------------------------------ *)
@@ -115,6 +123,13 @@ Theorem C11_hash_reaches_registered :
     end.
 Proof. exact hash_reaches. Qed.
 
+(* The text that is hashed is the first argument as it stands: the removal of a trailing NUL in
+   dispatch_hash.c never applies (with separator 0 the argument ends before the first NUL), so the
+   id above is djb2 raw for every message. *)
+Theorem C11_hash_text_is_first_argument :
+  forall s raw, flat_hash_text s = inr raw -> strip0 (hash_sep s) raw = raw.
+Proof. exact hash_strip_dead. Qed.
+
 (* ---- default-event bookkeeping ----------------------------------------------- *)
 (* [ret], [id']: what handler h returned and the id it left in the event ([s_invoke] is
    the scripted answer for the harness handler, the built-in unknownEvent otherwise).
@@ -167,7 +182,8 @@ Theorem C11_live_ids_unique :
 Proof. exact live_ids_unique. Qed.
 
 (* mpt_command_reserve: the id handed out is not live, lies in [1, max], and is live
-   afterwards; otherwise the call is refused (never a fault, never a runaway search). *)
+   afterwards; otherwise the call is refused (never a fault, never a runaway search);
+   when it may be refused: next theorem. *)
 Theorem C11_reserved_ids_unique :
   forall ops max,
     let d := dfinal dinit ops in
@@ -180,12 +196,56 @@ Theorem C11_reserved_ids_unique :
     end.
 Proof. exact reserved_fresh. Qed.
 
+(* mpt_command_reserve refuses only when it must: as long as one id of the range asked for is
+   not live (and max is not 0) a slot is handed out - on a raw table, on a table made by
+   mpt_command_set and on a default constructed C++ command::array alike (allocation is
+   assumed to succeed). *)
+Theorem C11_reserve_succeeds_while_ids_free :
+  forall ops max id,
+    let d := dfinal dinit ops in
+    max <> 0%N -> (1 <= id <= reserve_max max)%N -> ~ In id (map fst (entries (d_tbl d))) ->
+    exists pos id', snd (fst (dstep d (OReserve max))) = ORes (Some (pos, id')).
+Proof. exact reserve_succeeds. Qed.
+
 (* The in-place compaction loop of mpt_command_reserve is a stable filter, for every table. *)
 Theorem C11_compaction_is_stable_filter :
   forall sl, exists D',
     compact sl = Ok (filter live sl ++ D', length (filter live sl), maxid sl 0%N)
     /\ length (filter live sl ++ D') = length sl.
 Proof. exact compact_spec. Qed.
+
+(* ---- calls beside the dispatcher ------------------------------------------------- *)
+(* mpt_hash_djb2 without a length hashes the bytes before the first NUL (whatever follows
+   in the storage), with a length exactly that many bytes, NUL bytes included; no read
+   leaves the storage. *)
+Theorem C11_djb2_cstring :
+  forall s rest, hash_djb2 (Some (s ++ 0%N :: rest)) (-1) = Ok (djb2 (cstr s)).
+Proof. exact hash_djb2_cstring. Qed.
+
+Theorem C11_djb2_length :
+  forall s rest, hash_djb2 (Some (s ++ rest)) (Z.of_nat (length s)) = Ok (djb2 s).
+Proof. exact hash_djb2_len. Qed.
+
+(* reply_data::set(len, data) on an object with a value area of max bytes of which cur are
+   in use: refused, nothing changed, when another id is active (len and the stored length
+   both non-zero) or the value is longer than the area; otherwise the area starts with the
+   value and len is its length. *)
+Theorem C11_reply_data_set :
+  forall max cur data,
+    let r := mk_rdata max cur in
+    reply_data_set r (length data) (Some data)
+    = Ok (if (negb (length data =? 0) && negb (rd_len r =? 0)%N) || (max <? N.of_nat (length data))%N
+          then (r, false)
+          else (mkrd max (N.of_nat (length data)) (data ++ skipn (length data) (rd_val r)), true)).
+Proof. exact reply_data_set_spec. Qed.
+
+(* Every call beside the dispatcher: the transcription on checked storage (fragmented
+   messages, byte-wise reads, stores into the value area) never faults and yields what the
+   specification on flat data says; in particular the default handler of a reserved slot
+   answers 0 to every message and the built-in fallback handler is [s_unknown]. *)
+Theorem C11_aux_calls_refine :
+  forall a, aux_run a = Ok (aux_spec a).
+Proof. exact aux_refines. Qed.
 
 (* ---- non-vacuity ---------------------------------------------------------------- *)
 Definition ev_id (i : N) : option event := Some (mkev i None None).
@@ -242,6 +302,53 @@ Example C11_ex_hash :
   = [LCall 1 FUser 1 (Some (mkview 5860973 true None))]%N.
 Proof. vm_compute. reflexivity. Qed.
 
+(* reserve on a table made by mpt_command_set (content traits): compaction, then the slot is
+   appended (ids 3 and 4 above the stored ids 1 and 2); (typed flag, stored ids) after each operation *)
+Example C11_ex_reserve_typed :
+  map (fun x => (fst (fst x), option_map (fun t => (typed t, map sid (slots t))) (d_tbl (snd x))))
+      (drun dinit [OSet 1; OSet 2; OUnset 1; OReserve 1; OReserve 1]%N)
+  = [(OInt 1, Some (true, [1])); (OInt 1, Some (true, [1; 2])); (OInt 0, Some (true, [1; 2]));
+     (ORes (Some (1%nat, 3)), Some (true, [2; 3])); (ORes (Some (2%nat, 4)), Some (true, [2; 3; 4]))]%N.
+Proof. vm_compute. reflexivity. Qed.
+
+(* the default constructed C++ command::array: reserve and registration work, teardown drops the table *)
+Example C11_ex_array :
+  map (fun x => (fst (fst x), option_map (fun t => (typed t, map sid (slots t))) (d_tbl (snd x))))
+      (drun dinit [OArr; OReserve 1; OSet 9; OReserve 1; OFini]%N)
+  = [(OVoid, Some (true, [])); (ORes (Some (0%nat, 1)), Some (true, [1])); (OInt 1, Some (true, [1; 9]));
+     (ORes (Some (2%nat, 10)), Some (true, [1; 9; 10])); (OVoid, None)]%N.
+Proof. vm_compute. reflexivity. Qed.
+
+(* 127 ids of one byte: the 127th reservation gets id 127, the 128th is refused; after one is
+   given back the freed id is found again *)
+Example C11_ex_reserve_exhausted :
+  map (fun x => fst (fst x)) (skipn 126 (drun dinit (repeat (OReserve 1%N) 128 ++ [OUnset 77; OReserve 1]%N)))
+  = [ORes (Some (126, 127%N)); ORes None; OInt 76; ORes (Some (126, 77%N))].
+Proof. vm_compute. reflexivity. Qed.
+
+(* calls beside the dispatcher: "g\0o" with length 3, "go\0x" and "go" without length (same as
+   C11_ex_djb2), no data; the default waiter on an Answer with code -1 cut in two parts;
+   reply_data::set of [1;2] on an idle / an active object, clearing an active one, a value
+   too long, zero fill *)
+Example C11_ex_aux :
+  map (fun a => snd (fst (dstep dinit (OAux a))))
+      [ADjbLen [103; 0; 111]; ADjbStr [103; 111; 0; 120]; ADjbStr [103; 111]; ADjbNull 5;
+       ALogReply (Some [[1]; [255]]); ARSet 4 [] [1; 2]; ARSet 4 [7] [1; 2]; ARSet 4 [7] [];
+       ARSet 2 [] [1; 2; 3]; ARZero 4 [] 3]%N
+  = [OAuxR (XHash 193408557); OAuxR (XHash 5860973); OAuxR (XHash 5860973); OAuxR (XHash 0); OAuxR (XInt 0);
+     OAuxR (XRData true 2 [1; 2; 238; 238]); OAuxR (XRData false 1 [7; 238; 238; 238]);
+     OAuxR (XRData true 0 [7; 238; 238; 238]); OAuxR (XRData false 0 [238; 238]);
+     OAuxR (XRData true 3 [0; 0; 0; 238])]%N.
+Proof. vm_compute. reflexivity. Qed.
+
+(* the built-in fallback handler called directly on an empty message (two empty parts): no
+   reply, result 0; on a message of type 9: BadOperation reply, Fail *)
+Example C11_ex_unknown_direct :
+  (let '(_, o, lg) := dstep dinit (OAux (AUnknown 0 (Some [[]; []]) (Some 5%N))) in (o, lg),
+   let '(_, o, lg) := dstep dinit (OAux (AUnknown 0 (Some [[9%N]]) (Some 5%N))) in (o, lg))
+  = ((OAuxR (XUnk 0 0), []), (OAuxR (XUnk 2 0), [LReply 5 (-4)])).
+Proof. vm_compute. reflexivity. Qed.
+
 Print Assumptions C11_step_refines_map.
 Print Assumptions C11_history_refines_map.
 Print Assumptions C11_emit_reaches_registered.
@@ -249,9 +356,15 @@ Print Assumptions C11_emit_fallback_otherwise.
 Print Assumptions C11_emit_empty_message.
 Print Assumptions C11_emit_null_event.
 Print Assumptions C11_hash_reaches_registered.
+Print Assumptions C11_hash_text_is_first_argument.
 Print Assumptions C11_default_bookkeeping.
 Print Assumptions C11_finalised_exactly_once.
 Print Assumptions C11_finalised_after_fini.
 Print Assumptions C11_live_ids_unique.
 Print Assumptions C11_reserved_ids_unique.
 Print Assumptions C11_compaction_is_stable_filter.
+Print Assumptions C11_reserve_succeeds_while_ids_free.
+Print Assumptions C11_djb2_cstring.
+Print Assumptions C11_djb2_length.
+Print Assumptions C11_reply_data_set.
+Print Assumptions C11_aux_calls_refine.
